@@ -195,6 +195,8 @@ inductive HOp
   | par (op : POp)
   | query (fixed : List (String × Int))
   | hold (fixed : List (String × Int))
+  /-- a batch of non-mutating calls (repr, ==, len, get_*, to_dict, …): no effect -/
+  | nq
 
 def parseFixedPlus (s : String) : Option (List (String × Int)) :=
   (fields s "+").mapM (fun t =>
@@ -204,6 +206,7 @@ def parseFixedPlus (s : String) : Option (List (String × Int)) :=
 
 def parseHOp (t : String) : Option HOp :=
   if t = "all" then some .all
+  else if t = "nq" then some .nq
   else if t.startsWith "q:" then (parseFixedPlus (t.drop 2).toString).map HOp.query
   else if t.startsWith "hq:" then (parseFixedPlus (t.drop 3).toString).map HOp.hold
   else match t.splitOn ":" with
@@ -240,6 +243,7 @@ def stepHist (keep : Nat → Keep Res) (h : HState) : HOp → HState × String
   | .par op =>
     let (ps', e) := h.ps.step op
     ({ h with ps := ps' }, "p=" ++ showStatus e)
+  | .nq => (h, "nq=ok")
   | .rmax k => ({ h with repMax := k }, "a=ok")
   | .file b => ({ h with runner := { h.runner with file := b } }, "a=ok")
   | .del b => ({ h with del := b }, "a=ok")
